@@ -7,7 +7,7 @@ import hashlib
 import json
 import os
 
-SRC = '/repo/src/msmhelper'
+SRC = os.path.join(os.environ.get('VERIF_REPO', '/repo'), 'src', 'msmhelper')
 HERE = os.path.dirname(os.path.abspath(__file__))
 ANCHORS = {
     'C01': {'msm/msm.py': None, 'statetraj.py': ['StateTraj']},
